@@ -792,6 +792,9 @@ def site_e2e_cases():
     for i, loc in enumerate(ROBOTS_REDIRECTS):
         for st in (301, 302, 307):
             cases['robots-redirect:%d:%d' % (st, i)] = None
+    for i, loc in enumerate(ROBOTS_REDIRECTS):
+        for st in (301, 307):
+            cases['lib-redirect:%d:%d' % (st, i)] = None
     for i in range(len(SITEMAP_BODIES)):
         cases['sitemap-body:%d' % i] = None
         cases['sitemap-robots-body:%d' % i] = None
@@ -804,6 +807,19 @@ def site_e2e_cases():
 def run_site_e2e(name):
     from vt.appharn import AppRun
     parts = name.split(':')
+    if parts[0] == 'lib-redirect':
+        # the same hostile Location values against the documented client API
+        # (WebClient.session driven by hand: no processor, so no URL filter in between):
+        # following the redirect either works or raises a per-URL error kind
+        from vt.checks import c16
+        loc = ROBOTS_REDIRECTS[int(parts[2])]
+        out = c16.run_case_lib(dict(start='http://a.test/s', chain=[(int(parts[1]), loc)],
+                                    cookies=False, lib=True))
+        if out['result'] != 'ok':
+            return 'WebSession does not finish: %s' % out['result']
+        if out['exc']:
+            return 'WebSession raised %s' % out['exc'][:90]
+        return None
     pages = {'/': {'links': ['/hostile', '/sibling']}, '/sibling': {'links': ['/deep']},
              '/deep': {'links': []}, '/hostile': {'links': []}}
     argv = ['http://a.test/', '-r', '--waitretry', '0', '--tries', '2']
